@@ -71,31 +71,32 @@ def parse_twitter_url(url):
 
     """
 
-    if not is_twitter_url(url):
-        return None
-
-    parsed = safe_urlsplit(url)
-    path = pathsplit(parsed.path)
-
-    if path:
-        user_screen_name = normalize_screen_name(path[0])
-
-        if user_screen_name is None:
-            if len(path) == 3 and path[0] == "i" and path[1] == "lists":
-                return TwitterList(id=path[2])
+    # NOTE: fragment routing can be nested, so it is followed in a loop
+    while True:
+        if not is_twitter_url(url):
             return None
 
-        if len(path) == 3:
-            return TwitterTweet(user_screen_name=user_screen_name, id=path[2])
+        parsed = safe_urlsplit(url)
+        path = pathsplit(parsed.path)
 
-        return TwitterUser(screen_name=user_screen_name)
+        if path:
+            user_screen_name = normalize_screen_name(path[0])
 
-    if parsed.fragment.startswith("!"):
+            if user_screen_name is None:
+                if len(path) == 3 and path[0] == "i" and path[1] == "lists":
+                    return TwitterList(id=path[2])
+                return None
+
+            if len(path) == 3:
+                return TwitterTweet(user_screen_name=user_screen_name, id=path[2])
+
+            return TwitterUser(screen_name=user_screen_name)
+
+        if not parsed.fragment.startswith("!"):
+            return None
+
         path = re.sub(TWITTER_FRAGMENT_ROUTING_RE, "", parsed.fragment)
-
-        return parse_twitter_url("twitter.com/" + path)
-
-    return None
+        url = "twitter.com/" + path
 
 
 def extract_screen_name_from_twitter_url(url):
